@@ -351,6 +351,11 @@ def check_search(m, f, schema, res_wl, res_bound):
                           if wrong_vertex else ''))
     for res in (res_wl, res_bound):
         res.sites += 1
+        if res is res_wl and schema == 'S-BFS-ALL' and verdict is not None and verdict[0] == 'violation':
+            # distances and predecessor lists of the all-parent search do not depend on single insertion (its updates are
+            # guarded by first discovery / `<=`): the deviation costs work (C19), not correctness
+            res.ok(dict(function=disp, schema=schema, check='insert-once', note='not required for the results; see F-WL.bound'))
+            continue
         if verdict is None:
             res.broken('F-WL: the insertion guard of %s at %s is not one of the recognised marker tests (!mark[v], '
                        'dist[v]==sentinel, cand<dist[v])' % (disp, f.nloc(ins['i'])))
@@ -359,7 +364,7 @@ def check_search(m, f, schema, res_wl, res_bound):
                         marker=s.arrays[marker[1]]['name'], falsified_at=f.nloc(verdict[1])), fn=disp)
         else:
             fail(res, 'insert-once', verdict[1], verdict[2])
-    if verdict is None or verdict[0] != 'holds':
+    if verdict is None or (verdict[0] != 'holds' and schema != 'S-BFS-ALL'):
         return s
     s.marker = marker
     ins_region = f.region(ins['i'])
@@ -454,6 +459,11 @@ def check_search(m, f, schema, res_wl, res_bound):
                 has_unexp = False
                 for t, pol, dep in atoms2:
                     t2 = strip_conv(t)
+                    if t2[0] == 'bin' and not pol and t2[1] in ('>', '<', '>=', '<=', '==', '!='):
+                        t2 = ('bin', {'>': '<=', '<': '>=', '>=': '<', '<=': '>', '==': '!=', '!=': '=='}[t2[1]], t2[2], t2[3])
+                        pol = True
+                    if t2[0] == 'bin' and t2[1] in ('>=',) and pol:
+                        t2 = ('bin', '<=', t2[3], t2[2])
                     if t2[0] == 'bin' and t2[1] in ('<=', '==') and pol:
                         l, r = resolve(s, strip_cast(t2[2])), strip_cast(t2[3])
                         if r == ('idx', ('var', dist_arr), v) and l[0] == 'bin' and l[1] == '+' and \
@@ -878,7 +888,7 @@ def rule_wrappers(m):
         else:
             res.ok(dict(function=f.display(), walk='current = pred[current] from destination until source; throws on sentinel')
                    if len(res.samples) < 8 else None, fn=f.display())
-    res.require_sites(20, 'wrappers / reconstruction functions')
+    res.require_sites(10, 'wrappers / reconstruction functions')
     return res
 
 
@@ -915,7 +925,7 @@ def rule_enumpaths(m):
                 tv, tp = calls(VS, 'top'), calls(PS, 'top')
                 # lockstep: same number of pushes, each pair in the same region
                 if len(pv) != len(pp) or len(pv) != 2 or len(ov) != 1 or len(op) != 1 or len(tv) != 1 or len(tp) != 1:
-                    why = 'the two stacks are not pushed / popped in lockstep (pushes %d/%d, pops %d/%d)' % (len(pv), len(pp), len(ov), len(op))
+                    why = 'expected two pushes per stack and one pop / top per stack (pushes %d/%d, pops %d/%d)' % (len(pv), len(pp), len(ov), len(op))
                 else:
                     for a, b in zip(sorted(pv, key=lambda n: n['i']), sorted(pp, key=lambda n: n['i'])):
                         if f.region(a['i']) != f.region(b['i']):
@@ -976,5 +986,5 @@ def rule_enumpaths(m):
         else:
             res.ok(dict(function=f.display(), schema='two stacks in lockstep; seed preds(dest); pop; prepend; push preds(cur); record at source')
                    if len(res.samples) < 4 else None, fn=f.display())
-    res.require_sites(10, 'enumeration functions')
+    res.require_sites(5, 'enumeration functions')
     return res
